@@ -198,7 +198,7 @@ def c135(ctx):
     ctx.declare(R, "an edit removes before it adds, in every implementation of the edit semantics (an edit may remove and add the same name)")
     f = ctx.fn(R, M + "apply_edit")
     if f:
-        rm = [p_ for p_ in P.call_points(f, r"BTreeSet.*::remove$") if any(s_["k"] == "param" and s_["i"] == 2 for s_ in P.origins(f, P.term_at(f, p_)["args"][0]))]
+        rm = [p_ for p_ in P.call_points(f, r"BTreeSet.*::(remove|retain|take|clear|split_off)$") if any(s_["k"] == "param" and s_["i"] == 2 for s_ in P.origins(f, P.term_at(f, p_)["args"][0]))]
         add = [p_ for p_ in P.call_points(f, r"BTreeSet.*::(insert|extend|append)$|Extend.*>::extend$") if any(s_["k"] == "param" and s_["i"] == 2 for s_ in P.origins(f, P.term_at(f, p_)["args"][0]))]
         ctx.floor(R, "strs.remove sites in apply_edit", len(rm), 1)
         ctx.floor(R, "strs.insert sites in apply_edit", len(add), 1)
@@ -208,7 +208,20 @@ def c135(ctx):
                   pt=bad[0][0] if bad else None)
         # removals come from rm_strs, insertions from add_strs
         for p_ in rm:
-            ctx.check(R, f, "rm-source", ".rm_strs" in K.src_names(f, P.term_at(f, p_)["args"][1]), "removed names come from edit.rm_strs", "removals do not come from rm_strs", pt=p_)
+            t_ = P.term_at(f, p_)
+            if len(t_["args"]) < 2:
+                continue
+            names_ = K.src_names(f, t_["args"][1])
+            if (callee_skey(t_) or "").endswith("::retain"):
+                # bulk form: the predicate closure captures the removal set
+                for s_ in P.origins(f, t_["args"][1]):
+                    if s_["k"] == "agg" and s_.get("closure"):
+                        for o_ in s_["st"]["rv"]["ops"]:
+                            names_ |= K.src_names(f, o_)
+            if (callee_skey(t_) or "").endswith("::retain") and not any(n_.startswith(".") for n_ in names_):
+                ctx.notes.append("C13.5: the predicate of strs.retain(..) could not be traced to a field of the edit; source not checked")
+                continue
+            ctx.check(R, f, "rm-source", ".rm_strs" in names_, "removed names come from edit.rm_strs", "removals do not come from rm_strs", pt=p_)
         for p_ in add:
             ctx.check(R, f, "add-source", ".add_strs" in K.src_names(f, P.term_at(f, p_)["args"][1]), "inserted names come from edit.add_strs", "insertions do not come from add_strs", pt=p_)
     # the sibling that replays the same edits (lsmtk's orphan scan) uses the same order — checked by C08.4; the
